@@ -4,7 +4,7 @@ import "gmcheck/core"
 
 func init() {
 	Props["C09"] = PropDef{
-		Explanation: "R-RAWREAD who-may-call rule on Read([]byte) with count analysis; R-ERRFLOW E1-E4 + deferred completion; R-NOBUF. Decided: Every direct Read is a forwarding wrapper or a one-byte read whose count decides; all other reads go through full-read primitives, whose EOF is never forgiven; no error is dropped, tested after its sibling value was used, or lost in a deferred flush; no buffering reader sits on a decode path.",
+		Explanation: "R-RAWREAD who-may-call rule on Read([]byte) with count analysis; R-ERRFLOW E1-E4 + deferred completion; R-NOBUF; R-RAWREAD a one-byte Read never turns (0, nil) into a byte. Decided: Every direct Read is a forwarding wrapper or a one-byte read whose count decides; all other reads go through full-read primitives, whose EOF is never forgiven; no error is dropped, tested after its sibling value was used, or lost in a deferred flush; no buffering reader sits on a decode path.",
 		Run: func(c *Ctx) []core.Ob {
 			var obs []core.Ob
 			obs = append(obs, c.RawRead()...)
